@@ -97,8 +97,13 @@ def _worker(args):
     sys.unraisablehook = _quiet_unraisable   # SQLAlchemy state GC noise after forced rollbacks
     try:
         return ('ok', prop.run_case(case))
-    except Exception as e:  # harness trouble inside the worker
-        return ('err', '%s: %s\n%s' % (type(e).__name__, e, traceback.format_exc()[-3000:]))
+    except Exception as e:
+        tb = traceback.extract_tb(e.__traceback__)
+        text = '%s: %s\n%s' % (type(e).__name__, e, traceback.format_exc()[-3000:])
+        if any('/sqlalchemy_continuum/' in f.filename for f in tb):
+            # the code under test raised: that is an observation about the code, not harness trouble
+            return ('raised', {'type': type(e).__name__, 'msg': str(e)[:300], 'traceback': text[-1500:]})
+        return ('err', text)
 
 
 def case_hash(case):
@@ -137,6 +142,10 @@ class Runner(object):
     def evaluate(self, case, obs=None):
         if obs is None:
             st, obs = _worker((self.prop, case))
+            if st == 'raised':
+                out = Outcome()
+                out.violations.append({'clause': '%s.continuum_raised:%s' % (self.prop.id, obs['type']), 'detail': obs})
+                return obs, out
             if st != 'ok':
                 raise HarnessTrouble(obs)
         answers = self.ask(case, obs)
@@ -204,6 +213,9 @@ class Runner(object):
             it = pool.imap(_worker, [(prop, c) for c in cases], chunksize=prop.chunk)
             for case in cases:
                 st, obs = next(it)
+                if st == 'raised':
+                    violations.append((case, obs, {'clause': '%s.continuum_raised:%s' % (prop.id, obs['type']), 'detail': obs}))
+                    continue
                 if st != 'ok':
                     raise HarnessTrouble('case %s: %s' % (case_hash(case), obs))
                 if not can_model:
